@@ -11,7 +11,7 @@ namespace vf {
 // Thrown/used by oracles: a failure message.  Properties call fail_case() which records the
 // replay file (overwritten on every failing execution => last one is the shrunk case) and
 // then fails the rapidcheck case.
-#define VF_FAIL(casevar, msg) do { ::vf::record_failure((casevar), (msg)); RC_FAIL(std::string(msg)); } while (0)
+#define VF_FAIL(casevar, msg) do { if (::vf::W().stop_after_history_failure) break; int vf_k_ = ::vf::classify_failure((casevar), (msg)); if (vf_k_ == 0) break; if (vf_k_ == 1) ::vf::record_failure((casevar), (msg)); RC_FAIL(std::string(msg)); } while (0)
 
 template <typename F>
 bool rc_run(const std::string& name, long cases, int max_size, F&& property) {
